@@ -27,7 +27,7 @@ pub fn property() -> Property {
             "scripted peer speaks through the reference codec; harness pipe models EOF/reset/broken pipe/hanging shutdown",
             "server session wired as handle_connection wires it",
         ],
-        families: vec![(Box::new(FaultFam), 15_000, 120_000)],
+        families: vec![(Box::new(FaultFam), 15_000, 600_000)],
     }
 }
 
